@@ -539,6 +539,7 @@ def realise(d):
     models.extend(model_cls(i, log, idx) for i in range(d['nmodels']))
 
     lists = {}
+    edited = set(h[1] for h in d.get('history', []) if is_edit(h))
 
     def sdef(s):
         i = idx[s['name']]
@@ -552,6 +553,11 @@ def realise(d):
         if s.get('tags') is not None:
             # states with the same 'tags_ref' are handed one and the same list object
             o['tags'] = lists.setdefault(s['tags_ref'], list(s['tags'])) if s.get('tags_ref') else list(s['tags'])
+            # `Tags` only ever asks `item in self.tags`: any collection is a legal argument.  States whose tags are
+            # neither shared, nor edited by the history, nor extended by Error(accepted=True) get a tuple / set /
+            # frozenset instead of a list (by position)
+            if not s.get('tags_ref') and not s.get('accepted') and s['name'] not in edited:
+                o['tags'] = (list, tuple, set, frozenset)[(i + len(s['tags'])) % 4](s['tags'])
         if s.get('accepted') is not None:
             o['accepted'] = s['accepted']
         if s.get('hook') is not None:
